@@ -144,27 +144,9 @@ Definition cond_ok (o : obs) (k c p : nat) (wa : bool) : Prop :=
   /\ all_false (tl (map snd (o_evals o)))
   /\ (o_xr o = false -> (o_att o = true <-> all_false (map snd (o_evals o)))).
 
-Definition pt_ok (o : obs) : Prop :=
-  (o_fresh o = true -> o_ent o = None /\ o_trigs o = [] /\ o_calls o = [] /\ o_evals o = [] /\ o_xr o = false /\ o_ov o = false)
-  /\ (o_xr o = true -> o_att o = false)
-  /\ (forall k c n, o_ent o = Some (k, SCounter c n) -> in_range n -> counter_ok o k c n)
-  /\ (forall k c p wa, o_ent o = Some (k, SCond c p wa) -> cond_ok o k c p wa).
-
 Definition lists_ok (ls : list (nat * list nat)) (en : list (nat * (nat * espec))) (nh : nat) : Prop :=
   (forall k, NoDup (lstk ls k))
   /\ (forall k h, In h (lstk ls k) -> h < nh /\ exists e, alookup h en = Some (k, e)).
-
-Definition InvC ls en ce nh xr ov tr : Prop :=
-  lists_ok ls en nh /\ forall h, pt_ok (obs_of ls en ce nh xr ov tr h).
-
-Definition Inv (st : astate) : Prop :=
-  InvC (lsts st) (ents st) (cells st) (nexth st) (xrem st) (ovfs st) (atrace st).
-
-Lemma inv_init : Inv a_init.
-Proof.
-  split; [split; [intros k; constructor|intros k h []]|].
-  intros h. unfold obs_of, pt_ok, attachedk; simpl. repeat split; try discriminate; try reflexivity.
-Qed.
 
 (* ---------- attachedness under list surgery ---------- *)
 
@@ -200,22 +182,6 @@ Proof.
 Qed.
 
 (* what the proofs need from the header-dependent ingredients *)
-(* the test is due exactly with the max(n,1)-th trigger; while it is not due the counter went down by one *)
-Definition step_ok (step : (Z -> Z) -> Z -> Z * bool) : Prop :=
-  forall n t, in_range n -> (0 <= t < Z.max n 1)%Z ->
-    exists n' due, step int_dec (n - t)%Z = (n', due)
-                   /\ (due = false <-> (t + 1 < Z.max n 1)%Z)
-                   /\ (due = false -> n' = (n - (t + 1))%Z).
-
-Definition leafs_ok (lf : leafs) : Prop :=
-  step_ok (lf_step lf)
-  /\ lf_counter_rbc lf = true /\ lf_cond_rbc lf = true
-  /\ (forall w, lf_pass lf w = w)
-  /\ lf_counter_shared lf = true /\ lf_cond_shared lf = true.
-
-(* THE place where the generated definitions are opened: `<` for `<=`, a post-decrement, the
-   listener called before the removal, the condition not given its arguments or state kept in
-   the helper object make this lemma fail *)
 Ltac split_comparisons :=
   repeat match goal with
          | |- context [Z.leb ?a ?b] => destruct (Z.leb_spec a b)
@@ -230,55 +196,43 @@ Proof.
   destruct (Z.ltb_spec int_max (n - t - 1)); [lia|]. lia.
 Qed.
 
-(* the generated test of CounterRemover::Wrapper::operator() (either specialisation) *)
-Lemma generated_counter_test_ok islist : step_ok (GenAutoRemove.counter_step islist).
+(* ---------- everything below is parametric in the range of trigger counts covered ---------- *)
+
+Section Range.
+  Variable rng : Z -> Prop.
+
+Definition pt_ok (o : obs) : Prop :=
+  (o_fresh o = true -> o_ent o = None /\ o_trigs o = [] /\ o_calls o = [] /\ o_evals o = [] /\ o_xr o = false /\ o_ov o = false)
+  /\ (o_xr o = true -> o_att o = false)
+  /\ (forall k c n, o_ent o = Some (k, SCounter c n) -> rng n -> counter_ok o k c n)
+  /\ (forall k c p wa, o_ent o = Some (k, SCond c p wa) -> cond_ok o k c p wa).
+
+Definition InvC ls en ce nh xr ov tr : Prop :=
+  lists_ok ls en nh /\ forall h, pt_ok (obs_of ls en ce nh xr ov tr h).
+
+Definition Inv (st : astate) : Prop :=
+  InvC (lsts st) (ents st) (cells st) (nexth st) (xrem st) (ovfs st) (atrace st).
+
+Lemma inv_init : Inv a_init.
 Proof.
-  intros n t R T. assert (W := int_dec_in_range n t R T). destruct R as [R1 R2].
-  unfold GenAutoRemove.counter_step. destruct islist; cbv zeta; rewrite ?W; split_comparisons; simpl;
-    (eexists; eexists; split; [reflexivity|]; split; [split; intros; try discriminate; try reflexivity; lia|intros; try discriminate; try reflexivity; lia]).
+  split; [split; [intros k; constructor|intros k h []]|].
+  intros h. unfold obs_of, pt_ok, attachedk; simpl. repeat split; try discriminate; try reflexivity.
 Qed.
 
-Lemma generated_counter_removes_before_call islist : GenAutoRemove.counter_removes_before_call islist = true.
-Proof. destruct islist; reflexivity. Qed.
+(* the test is due exactly with the max(n,1)-th trigger; while it is not due the counter went
+   down by one; no executed decrement leaves the int range *)
+Definition step_ok (bounded : bool) (step : (Z -> Z) -> Z -> Z * bool) : Prop :=
+  forall n t, rng n -> (0 <= t < Z.max n 1)%Z ->
+    exists n' due, step int_dec (n - t)%Z = (n', due)
+                   /\ (due = false <-> (t + 1 < Z.max n 1)%Z)
+                   /\ (due = false -> n' = (n - (t + 1))%Z)
+                   /\ counter_overflowed bounded (n - t) n' = false.
 
-Lemma generated_cond_removes_before_call islist : GenAutoRemove.cond_removes_before_call islist = true.
-Proof. destruct islist; reflexivity. Qed.
-
-Lemma generated_cond_receives_arguments_iff_accepted islist w : GenAutoRemove.cond_passes_args islist w = w.
-Proof. destruct islist, w; reflexivity. Qed.
-
-Lemma generated_counter_state_in_shared_data islist : GenAutoRemove.counter_state_shared islist = true.
-Proof. destruct islist; reflexivity. Qed.
-
-Lemma generated_cond_state_in_shared_data islist : GenAutoRemove.cond_state_shared islist = true.
-Proof. destruct islist; reflexivity. Qed.
-
-(* THE place where the generated definitions are opened: `<` for `<=`, a post-decrement, the
-   listener called before the removal, the condition not given its arguments or state kept in
-   the helper object make one of the six lemmas above fail *)
-Lemma gen_leafs_ok islist : leafs_ok (gen_leafs islist).
-Proof.
-  unfold leafs_ok, gen_leafs; simpl.
-  split; [apply generated_counter_test_ok|]. split; [apply generated_counter_removes_before_call|].
-  split; [apply generated_cond_removes_before_call|]. split; [apply generated_cond_receives_arguments_iff_accepted|].
-  split; [apply generated_counter_state_in_shared_data|apply generated_cond_state_in_shared_data].
-Qed.
-
-Lemma spec_leafs_ok : leafs_ok spec_leafs.
-Proof.
-  unfold leafs_ok, spec_leafs; simpl. split; [|repeat split; reflexivity].
-  intros n t [R1 R2] T. replace (n - t - 1)%Z with (n - (t + 1))%Z by lia.
-  eexists; eexists; split; [reflexivity|]. split; [|reflexivity].
-  destruct (Z.leb_spec (n - (t + 1)) 0); split; intros; try discriminate; try reflexivity; lia.
-Qed.
-
-Lemma legacy_leafs_ok : leafs_ok legacy_leafs.
-Proof.
-  unfold leafs_ok, legacy_leafs; simpl. split; [|repeat split; reflexivity].
-  intros n t R T. rewrite (int_dec_in_range n t R T). destruct R as [R1 R2].
-  eexists; eexists; split; [reflexivity|]. split; [|reflexivity].
-  destruct (Z.leb_spec (n - (t + 1)) 0); split; intros; try discriminate; try reflexivity; lia.
-Qed.
+Definition leafs_ok (lf : leafs) : Prop :=
+  step_ok (lf_bounded lf) (lf_step lf)
+  /\ lf_counter_rbc lf = true /\ lf_cond_rbc lf = true
+  /\ (forall w, lf_pass lf w = w)
+  /\ lf_counter_shared lf = true /\ lf_cond_shared lf = true.
 
 (* ---------- transitions of the core state ---------- *)
 
@@ -310,7 +264,7 @@ Qed.
 
 (* a CounterRemover wrapper is activated: decrement, test, remove when due, call the listener *)
 Lemma counter_trans step (bounded : bool) ls en ce nh xr ov tr h k c n a n' due :
-  step_ok step ->
+  step_ok bounded step ->
   InvC ls en ce nh xr ov tr -> In h (lstk ls k) -> alookup h en = Some (k, SCounter c n) ->
   step int_dec (cellk ce h) = (n', due) ->
   InvC (if due then aset k (del_l h (lstk ls k)) ls else ls) en (aset h n' ce) nh xr
@@ -328,8 +282,8 @@ Proof.
     destruct (C _ _ _ eq_refl R) as (C1 & C2 & C3 & C4 & C5).
     unfold counter_ok, nt in *; simpl in *.
     assert (T : (0 <= Z.of_nat (length (trigs_of h tr)) < Z.max n 1)%Z) by (split; [lia|apply (proj1 (C4 eq_refl)); exact Att]).
-    rewrite (C2 Att) in St. destruct (SOK n _ R T) as (n'' & due' & S1 & S2 & S4). assert (S3 := no_overflow_in_range n _ R T).
-    rewrite S1 in St. inversion St; subst n'' due'. clear St. unfold counter_overflowed. rewrite (C2 Att), S3, andb_false_r. simpl.
+    rewrite (C2 Att) in St. destruct (SOK n _ R T) as (n'' & due' & S1 & S2 & S4 & S3).
+    rewrite S1 in St. inversion St; subst n'' due'. clear St. rewrite (C2 Att), S3.
     rewrite cellk_aset, Nat.eqb_refl.
     split; [rewrite C1; reflexivity|]. split; [|split; [lia|split; [|exact C5]]].
     + destruct due.
@@ -426,7 +380,7 @@ Proof.
       rewrite A. rewrite (leb_false_lt (S nh) nh) by lia.
       split; [discriminate|]. split; [discriminate|]. split.
       * intros k1 c1 n1 E1 R. inversion E1; subst. unfold counter_ok, nt; simpl.
-        rewrite cellk_aset, Nat.eqb_refl. destruct R. repeat split; try reflexivity; try lia.
+        rewrite cellk_aset, Nat.eqb_refl. clear R. repeat split; try reflexivity; try lia.
       * intros k1 c1 p1 wa1 E1. inversion E1; subst. unfold cond_ok; simpl. repeat split; reflexivity.
     + assert (A : attachedk (aset k (pf nh (lstk ls k)) ls) (aset nh (k, e) en) h' = attachedk ls en h').
       { unfold attachedk. rewrite alookup_aset, (eqb_false_ne _ _ N). destruct (alookup h' en) as [[k1 e1]|]; [|reflexivity].
@@ -761,7 +715,7 @@ Section Progress.
   (* once detached without an explicit remove, a wrapper has been triggered since it was last seen attached *)
   Lemma detached_means_triggered st0 sti h k e :
     Inv st0 -> Inv sti -> Ext st0 sti -> alookup h (ents st0) = Some (k, e) ->
-    match e with SCounter _ n => in_range n | _ => True end -> is_wrapper e ->
+    match e with SCounter _ n => rng n | _ => True end -> is_wrapper e ->
     attached st0 h = true -> has_l h (xrem sti) = false -> attached sti h = false -> ntrig st0 h < ntrig sti h.
   Proof.
     intros I0 Ii X E R W A0 Xi Ai.
@@ -793,7 +747,7 @@ Section Progress.
   Theorem dispatch_reaches_attached fuel st k a st' h e :
     Inv st -> dispatch lf behav cverdict (a_run lf behav cverdict fuel) st k a = Some st' ->
     alookup h (ents st) = Some (k, e) ->
-    match e with SCounter _ n => in_range n | _ => True end -> is_wrapper e ->
+    match e with SCounter _ n => rng n | _ => True end -> is_wrapper e ->
     attached st h = true -> has_l h (xrem st') = false -> ntrig st h < ntrig st' h.
   Proof.
     intros I H E R W A Xr. unfold dispatch in H.
@@ -817,7 +771,7 @@ Section Statements.
 
   Theorem counter_remover_exact fuel prog st h k c n :
     a_run lf behav cverdict fuel a_init prog = Some st ->
-    alookup h (ents st) = Some (k, SCounter c n) -> (int_min < n <= int_max)%Z ->
+    alookup h (ents st) = Some (k, SCounter c n) -> rng n ->
     let t := Z.of_nat (length (trigs_of h (atrace st))) in
     calls_of h (atrace st) = map (fun a => (c, k, a)) (trigs_of h (atrace st))
     /\ (t <= Z.max n 1)%Z
@@ -850,7 +804,7 @@ Section Statements.
     a_run lf behav cverdict fuel a_init prog = Some st ->
     a_run lf behav cverdict (S fuel') st [ADispatch k a] = Some st' ->
     alookup h (ents st) = Some (k, e) ->
-    match e with SPlain _ => False | SCounter _ n => (int_min < n <= int_max)%Z | SCond _ _ _ => True end ->
+    match e with SPlain _ => False | SCounter _ n => rng n | SCond _ _ _ => True end ->
     attached st h = true -> has_l h (xrem st') = false ->
     length (trigs_of h (atrace st)) < length (trigs_of h (atrace st')).
   Proof.
@@ -944,6 +898,60 @@ Section Helper.
     induction fuel as [|f IH]; intros st prog; [reflexivity|]. simpl. apply seq_eq. exact IH.
   Qed.
 End Helper.
+
+End Range.
+
+(* ---------- the ingredients meet the requirements ---------- *)
+
+(* the generated test of CounterRemover::Wrapper::operator() (either specialisation) *)
+Lemma generated_counter_test_ok islist : step_ok in_range true (GenAutoRemove.counter_step islist).
+Proof.
+  intros n t R T. assert (W := int_dec_in_range n t R T). destruct R as [R1 R2].
+  unfold GenAutoRemove.counter_step. destruct islist; cbv zeta; rewrite ?W; split_comparisons; simpl;
+    (eexists; eexists; split; [reflexivity|]; split; [split; intros; try discriminate; try reflexivity; lia|intros; try discriminate; try reflexivity; lia]).
+Qed.
+
+Lemma generated_counter_removes_before_call islist : GenAutoRemove.counter_removes_before_call islist = true.
+Proof. destruct islist; reflexivity. Qed.
+
+Lemma generated_cond_removes_before_call islist : GenAutoRemove.cond_removes_before_call islist = true.
+Proof. destruct islist; reflexivity. Qed.
+
+Lemma generated_cond_receives_arguments_iff_accepted islist w : GenAutoRemove.cond_passes_args islist w = w.
+Proof. destruct islist, w; reflexivity. Qed.
+
+Lemma generated_counter_state_in_shared_data islist : GenAutoRemove.counter_state_shared islist = true.
+Proof. destruct islist; reflexivity. Qed.
+
+Lemma generated_cond_state_in_shared_data islist : GenAutoRemove.cond_state_shared islist = true.
+Proof. destruct islist; reflexivity. Qed.
+
+(* THE place where the generated definitions are opened: `<` for `<=`, a post-decrement, the
+   listener called before the removal, the condition not given its arguments or state kept in
+   the helper object make one of the six lemmas above fail *)
+Lemma gen_leafs_ok islist : leafs_ok in_range (gen_leafs islist).
+Proof.
+  unfold leafs_ok, gen_leafs; simpl.
+  split; [apply generated_counter_test_ok|]. split; [apply generated_counter_removes_before_call|].
+  split; [apply generated_cond_removes_before_call|]. split; [apply generated_cond_receives_arguments_iff_accepted|].
+  split; [apply generated_counter_state_in_shared_data|apply generated_cond_state_in_shared_data].
+Qed.
+
+Lemma spec_leafs_ok : leafs_ok in_range spec_leafs.
+Proof.
+  unfold leafs_ok, spec_leafs; simpl. split; [|repeat split; reflexivity].
+  intros n t [R1 R2] T. replace (n - t - 1)%Z with (n - (t + 1))%Z by lia.
+  eexists; eexists; split; [reflexivity|]. split; [|reflexivity].
+  destruct (Z.leb_spec (n - (t + 1)) 0); split; intros; try discriminate; try reflexivity; lia.
+Qed.
+
+Lemma legacy_leafs_ok : leafs_ok in_range legacy_leafs.
+Proof.
+  unfold leafs_ok, legacy_leafs; simpl. split; [|repeat split; reflexivity].
+  intros n t R T. rewrite (int_dec_in_range n t R T). destruct R as [R1 R2].
+  eexists; eexists; split; [reflexivity|]. split; [|reflexivity].
+  destruct (Z.leb_spec (n - (t + 1)) 0); split; intros; try discriminate; try reflexivity; lia.
+Qed.
 
 (* ---------- trigger count INT_MIN: the decrement overflows ---------- *)
 
